@@ -1231,7 +1231,7 @@ static int run(int argc, char** argv)
     }
     if (mode == "triv")
     {
-        begin_case({ "CASE", "triv" }, 60);
+        begin_case({ "CASE", "0" }, 60);
         triv_all();
         flush_found("trivially-copyable-element-types");
         end_case();
